@@ -89,7 +89,57 @@ def richardson(f, Z, h, cols=None):
 
 # ------------------------------------------------------------------ one case
 
+def case_rows(ctx, res, p):
+    """Many rows: every derivative method is row-wise, so row i of the result on a large batch is the result on a
+    small batch holding that row (and, for the small batch, the main case checks it against finite differences)."""
+    fam, kind = p["family"], p["kind"]
+    cname = CLASSNAME[(fam, kind)]
+    Xq = np.asarray(p["q"], float)
+    T = np.asarray(p["t"], float) if kind == "T" else None
+    Q = Xq.shape[0]
+    res.count("manyrows:class=" + cname)
+    res.count("manyrows:rows=%d" % Q)
+    res.case(("rows", cname, Xq.tobytes()), True, {"op": "rows", "class": cname, "rows": Q})
+    pred = build(p)
+    jit = bool(p["jit"][0])
+    picks = sorted(set([0, 1, 2] + [i for i in range(509, 516) if i < Q] + [i for i in range(1021, 1027) if i < Q]
+                       + [Q - 3, Q - 2, Q - 1]))
+    chunks = [picks[i:i + 3] for i in range(0, len(picks) - len(picks) % 3, 3)] + [[Q - 3, Q - 2, Q - 1]]
+    methods = [("gradient", lambda A, B: grad(pred, kind, A, B, jit)), ("hessian", lambda A, B: hess(pred, kind, A, B, jit)),
+               ("hessian_log_determinant", lambda A, B: hld(pred, kind, A, B, jit)[1]),
+               ("hessian_log_determinant sign", lambda A, B: hld(pred, kind, A, B, jit)[0]),
+               ("call", lambda A, B: call(pred, kind, A, B))]
+    if kind == "T":
+        methods.append(("time_derivative", lambda A, B: np.asarray(pred.time_derivative(A, B, jit=jit), float)))
+    for name, f in methods:
+        try:
+            big = f(Xq, T)
+        except Exception as e:
+            res.oracle_fail(f"{cname}.{name} raised {type(e).__name__} on {Q} rows", p, signature=f"C12:rows-raises:{name}")
+            continue
+        if big.shape[0] != Q:
+            res.oracle_fail(f"{cname}.{name} on {Q} rows does not return {Q} rows", p, detail={"shape": list(big.shape)},
+                            signature=f"C12:rows-shape:{name}")
+            continue
+        worst = 0.0
+        for ch in chunks:
+            small = f(Xq[ch], None if T is None else T[ch])
+            ref = big[ch]
+            sc = np.maximum(np.abs(small), np.abs(ref)) + 1e-9 * (np.max(np.abs(big[np.isfinite(big)]), initial=0) + 1e-300)
+            dv = np.abs(small - ref) / sc
+            dv = np.where(np.isfinite(small) & np.isfinite(ref), dv, np.where(np.isnan(small) & np.isnan(ref), 0.0, np.inf))
+            if np.max(dv, initial=0) > worst:
+                worst, wrow = float(np.max(dv)), ch[int(np.unravel_index(np.argmax(dv), dv.shape)[0])]
+        res.dev("manyrows_vs_small_batch_rel", worst)
+        if worst > 1e-7:
+            res.oracle_fail(f"{cname}.{name} on {Q} rows: row {wrow} is not what the method returns for that row alone "
+                            "(derivatives of other rows)", p, detail={"row": int(wrow), "rel": worst},
+                            signature=f"C12:rows:{name}")
+
+
 def run_case(ctx, res, p):
+    if p["op"] == "rows":
+        return case_rows(ctx, res, p)
     if p["op"] != "deriv":
         raise ValueError(p["op"])
     fam, kind = p["family"], p["kind"]
@@ -461,6 +511,11 @@ def run(ctx, res):
         menu = [(int(rng.integers(1, 4)), 3), (int(rng.integers(4, 7)), 1)]
     else:
         menu = [(ds, q) for ds in range(1, 7) for q in (1, 3)]
+    # many rows (row-wise batching): one class per quick run, three per thorough run
+    for fam, kind in order[: (1 if quick else 3)]:
+        pr = gen_case(rng, fam, kind, 2, [700, 515, 1030][int(rng.integers(3))], "base", 1, (bool(rng.integers(2)),), True)
+        pr["op"] = "rows"
+        run_case(ctx, res, pr)
     i = 0
     did_multi = False
     while True:
